@@ -71,7 +71,11 @@ pub fn apply(cfg: &ShimCfg) {
         }
         match &cfg.log {
             Some(p) => std::env::set_var("REFSOLVER_LOG", p),
-            None => std::env::remove_var("REFSOLVER_LOG"),
+            // debugging aid: PV_SHIM_LOG=<file> logs every conversation of a replay
+            None => match std::env::var("PV_SHIM_LOG") {
+                Ok(p) => std::env::set_var("REFSOLVER_LOG", p),
+                Err(_) => std::env::remove_var("REFSOLVER_LOG"),
+            },
         }
     }
 }
